@@ -96,17 +96,19 @@ PROPERTY = {
         'text': "Lean 4 theorems over every finite program of the modelled Span API (new/clone/drop, entered/exit/guard drop in any order, in_scope, record, follows_from, "
                 "Span::current, or_current, Instrumented polled and dropped anywhere, any thread, any default incl. a foreign one): for every span, "
                 "#new + #clone_span - #try_close in the collector log equals the number of live owners (refcount, by an invariant through all 16 operations, including dropping an Instrumented future whose inner future owns a span handle: future_drop_releases_inner), the calls of drop/enter/exit/poll are a function of the handle alone "
-                "(own_collector: the thread default does not occur), operations on a disabled span cause no call (disabled_silent). Enter/exit balance per thread and silence after the last close are decided per program by the judge on the "
-                "observed log (their unbounded proofs are not yet in the theorem file). "
+                "(own_collector: the thread default does not occur), operations on a disabled span cause no call (disabled_silent). Enter/exit: for every span and thread, enters minus exits in the log = entered guards of that span living on that thread (enter_exit_balance, by a second invariant through all 16 operations), hence never an exit "
+                "without its enter and exactly matched once no guard is left. Silence after the last close is decided per program by the judge on the observed log. "
                 "The hand-written model is compared call-for-call with the real tracing crate under recording collectors, and the observed log is judged by the clauses directly.",
         'note': "Trusted: Lean kernel; propext/Classical.choice/Quot.sound; the model of span.rs/instrument.rs is hand-written (tie = correspondence); programs use EnteredSpan-style guards (the borrowed "
                 "Entered<'_> guard makes the same two calls); recording collectors return the same id from clone_span; tracing-futures 0.1 combinators are not driven (tracing::Instrument is).",
         'technique': 'Lean 4 proof (invariants over op sequences) of a hand-written model + call-for-call differential run against the real crate',
     },
-    'lean_module': 'TracingModel.Props.C03',
+    'lean_module': 'TracingModel.Props.C03E',
+    'leanchecker_modules': ['TracingModel.Props.C03'],
     'namespace': 'C03',
     'units': [],
-    'required_theorems': ['C03.refcount', 'C03.step_rc', 'C03.closes_match_when_gone', 'C03.disabled_silent', 'C03.own_collector', 'C03.future_drop_releases_inner'],
+    'required_theorems': ['C03.refcount', 'C03.step_rc', 'C03.closes_match_when_gone', 'C03.disabled_silent', 'C03.own_collector', 'C03.future_drop_releases_inner',
+                          'C03.enter_exit_balance', 'C03.no_exit_without_enter', 'C03.enters_matched_when_no_guard', 'C03.step_eb'],
     'streams': [Stream('prog', 'h_span', gen=gen, nontrivial=nontrivial)],
     'rule': 'one case = one program of 15-60 ops over <=3 threads, two recording collectors (one rejecting DEBUG spans) or none as each thread\'s default, handles moved freely between threads; '
             'non-trivial = >=2 spans created, enters and closes present and either both collectors used or a clone_span observed',
